@@ -17,6 +17,15 @@ pub struct ClsCase {
     pub seq_b: String,
     /// description of the atoms used (for signatures)
     pub atoms: String,
+    /// MT103 only: bank operation code to write in 23B ("" = keep the minimal body's)
+    #[serde(default)]
+    pub b23: String,
+    /// MT103 only: instruction codes of the 23E repetitions
+    #[serde(default)]
+    pub e23: Vec<String>,
+    /// MT103 only: add an intermediary 56A (with its 57A)
+    #[serde(default)]
+    pub f56: bool,
 }
 
 const ATOMS: &[&str] = &[
@@ -39,10 +48,111 @@ impl ClsCase {
             s.push('}');
         }
         s.push_str("{4:\n");
-        s.push_str(&body_with_72(&self.mt, &self.f72, &self.seq_b));
+        let mut body = body_with_72(&self.mt, &self.f72, &self.seq_b);
+        if self.mt == "103" && (!self.b23.is_empty() || !self.e23.is_empty() || self.f56) {
+            let mut fields: Vec<(String, String)> = crate::refs::tokenize(&body)
+                .1
+                .into_iter()
+                .map(|t| (t.tag, t.content))
+                .filter(|(t, _)| t != "23E" && t != "56A" && t != "57A")
+                .collect();
+            if let Some(i) = fields.iter().position(|(t, _)| t == "23B") {
+                if !self.b23.is_empty() {
+                    fields[i].1 = self.b23.clone();
+                }
+                for (k, code) in self.e23.iter().enumerate() {
+                    fields.insert(i + 1 + k, ("23E".into(), code.clone()));
+                }
+            }
+            if self.f56 {
+                if let Some(i) = fields.iter().position(|(t, _)| t.starts_with("59")) {
+                    fields.insert(i, ("57A".into(), "CHASUS33".into()));
+                    fields.insert(i, ("56A".into(), "DEUTDEFF".into()));
+                }
+            }
+            body = fields
+                .iter()
+                .map(|(t, c)| format!(":{t}:{c}\n"))
+                .collect::<String>();
+        }
+        s.push_str(&body);
         s.push_str("-}");
         s
     }
+}
+
+/// STP compliance of an MT103 as `is_stp_compliant` documents it: not an STP type (23B other than
+/// SPRI/SSTD/SPAY) => compliant; SPRI: every 23E code in {SDVA, TELB, PHOB, INTC} and no field 56;
+/// SSTD/SPAY: no 23E at all
+pub fn stp_expected(b23: &str, e23: &[String], f56: bool) -> bool {
+    match b23 {
+        "SPRI" => {
+            e23.iter()
+                .all(|c| ["SDVA", "TELB", "PHOB", "INTC"].contains(&c.as_str()))
+                && !f56
+        }
+        "SSTD" | "SPAY" => e23.is_empty(),
+        _ => true,
+    }
+}
+
+pub fn enumerate_stp() -> Vec<ClsCase> {
+    let lists: Vec<Vec<&str>> = vec![
+        vec![],
+        vec!["SDVA"],
+        vec!["CORT"],
+        vec!["SDVA", "CORT"],
+        vec!["CORT", "SDVA"],
+        vec!["INTC", "SDVA"],
+        vec!["SDVA", "TELB", "PHOB", "INTC"],
+        vec!["SDVA", "TELB", "HOLD"],
+        vec!["CHQB", "INTC", "PHOB"],
+        vec!["INTC", "REPA", "TELB"],
+    ];
+    let mut out = Vec::new();
+    for b in ["CRED", "CRTS", "SPAY", "SPRI", "SSTD"] {
+        for l in &lists {
+            for f56 in [false, true] {
+                for f72 in [vec![], vec!["/REJT/AC01".to_string()], vec!["/RETN/AC01".to_string()]] {
+                    out.push(ClsCase {
+                        mt: "103".into(),
+                        f72: f72.clone(),
+                        t108: None,
+                        t119: None,
+                        seq_b: String::new(),
+                        atoms: "stp".into(),
+                        b23: b.to_string(),
+                        e23: l.iter().map(|x| x.to_string()).collect(),
+                        f56,
+                    });
+                }
+            }
+        }
+    }
+    out
+}
+
+pub fn stp_oracle(c: &ClsCase, obs: &mut Obs) -> Vec<Violation> {
+    let mut out = oracle(c, obs);
+    if let Some(o) = observe(c) {
+        obs.class("stp-dimension");
+        let exp = stp_expected(&c.b23, &c.e23, c.f56);
+        if o.stp != exp {
+            let what = if c.e23.len() > 1 { "23E-repeated" } else if c.f56 { "with-56" } else { "plain" };
+            out.push(viol(
+                format!("C17|MT103|stp|expected-{exp}|{}|{what}", c.b23),
+                format!(
+                    "is_stp_message()={} for 23B={} 23E={:?} 56a={}: {}",
+                    o.stp,
+                    c.b23,
+                    c.e23,
+                    c.f56,
+                    c.text()
+                ),
+            ));
+        }
+    }
+    out
 }
 
 /// minimal body of the type with field 72 set / removed, and (MT202) a sequence B
@@ -157,6 +267,9 @@ pub fn enumerate(mt: &str, thorough: bool) -> Vec<ClsCase> {
                         t119: b.map(|x| x.to_string()),
                         seq_b: s.to_string(),
                         atoms: d.clone(),
+                        b23: String::new(),
+                        e23: Vec::new(),
+                        f56: false,
                     });
                 }
             }
@@ -357,6 +470,9 @@ pub fn run(ctx: &Ctx) {
     }
     total.unknown.extend(obs.unknown);
     drop(total);
+    // MT103 STP dimension: 23B x 23E repetitions x 56a x reject/return code words
+    ctx.assume("stp: expected value as is_stp_compliant documents it (SPRI: every 23E code in SDVA/TELB/PHOB/INTC and no 56a; SSTD/SPAY: no 23E; other 23B: compliant)");
+    ctx.run_enumerated("stp", 1, &|_| enumerate_stp(), &stp_oracle, &to_json);
     // control: other types report `normal` and no classification
     let to_json2 = |c: &ClsCase| serde_json::to_value(c).unwrap();
     let controls = ["101", "199", "900", "940", "202"];
@@ -376,6 +492,9 @@ pub fn run(ctx: &Ctx) {
                     t119: None,
                     seq_b: String::new(),
                     atoms: "control".into(),
+                    b23: String::new(),
+                    e23: Vec::new(),
+                    f56: false,
                 },
                 ClsCase {
                     mt: mt.to_string(),
@@ -384,6 +503,9 @@ pub fn run(ctx: &Ctx) {
                     t119: Some("COV".into()),
                     seq_b: String::new(),
                     atoms: "control".into(),
+                    b23: String::new(),
+                    e23: Vec::new(),
+                    f56: false,
                 },
                 ClsCase {
                     mt: mt.to_string(),
@@ -392,6 +514,9 @@ pub fn run(ctx: &Ctx) {
                     t119: None,
                     seq_b: String::new(),
                     atoms: "control".into(),
+                    b23: String::new(),
+                    e23: Vec::new(),
+                    f56: false,
                 },
             ]
         },
@@ -431,5 +556,8 @@ pub fn replay(_ctx: &Ctx, sub: &str, case: &Value) -> Vec<Violation> {
         return Vec::new();
     }
     let c: ClsCase = serde_json::from_value(case.clone()).expect("replay case");
+    if sub == "stp" {
+        return stp_oracle(&c, &mut Obs::default());
+    }
     oracle(&c, &mut Obs::default())
 }
